@@ -139,3 +139,32 @@ pub fn silence_panics() {
 pub fn json_escape(s: &str) -> String {
     serde_json::to_string(s).unwrap()
 }
+
+/// terminal output as screens: the text is cut at every "erase display" control sequence (`ESC [ 2 J`, also `ESC c`), every other control sequence (`ESC [ … letter`, e.g. cursor home) is removed. Element 0 is what was printed
+/// before the first erase; every further element is what one refresh shows. The exact choice of sequences is not part
+/// of any property, only "the screen was cleared here".
+pub fn split_screens(raw: &str) -> Vec<String> {
+    let mut screens = vec![String::new()];
+    let cs: Vec<char> = raw.chars().collect();
+    let mut i = 0;
+    while i < cs.len() {
+        if cs[i] == '\x1B' && i + 1 < cs.len() && cs[i + 1] == '[' {
+            let mut j = i + 2;
+            while j < cs.len() && !(cs[j].is_ascii_alphabetic()) { j += 1; }
+            if j < cs.len() {
+                let params: String = cs[i + 2..j].iter().collect();
+                // `ESC [ 3 J` (erase the scroll-back) only accompanies an erase and is dropped like cursor movements
+                if cs[j] == 'J' && params == "2" { screens.push(String::new()); }
+                i = j + 1;
+                continue;
+            }
+        }
+        if cs[i] == '\x1B' && i + 1 < cs.len() && cs[i + 1] == 'c' { screens.push(String::new()); i += 2; continue; }
+        screens.last_mut().unwrap().push(cs[i]);
+        i += 1;
+    }
+    screens
+}
+
+/// terminal output with every control sequence removed
+pub fn strip_control(raw: &str) -> String { split_screens(raw).concat() }
